@@ -92,6 +92,8 @@ func c03Run(f []string) string {
 		return c03AnalyzeRun(f)
 	case "analyze-spec":
 		return c03AnalyzeSpecRun(f)
+	case "tbl":
+		return c03TblRun(f)
 	case "csv":
 		rows := c03DecRows(f[1])
 		var b c03Buf
@@ -258,6 +260,18 @@ func c03Gen(r *Rand, tier string) []string {
 			out = append(out, c03AnalyzeSpecCase(r))
 		}
 	}
+	nTbl := 1500
+	if tier == "thorough" {
+		nTbl = 40000
+	}
+	for i := 0; i < nTbl; i++ {
+		out = append(out, c03TblCase(r))
+	}
+	if tier == "thorough" {
+		c03TblExhaustive(5, &out)
+	} else {
+		c03TblExhaustive(4, &out)
+	}
 	for i := 0; i < n; i++ {
 		out = append(out, "csv "+c03EncRows(c03Rows(r)))
 		out = append(out, "agg counter "+HexListS(c03Hist(r, "\x00", 1)))
@@ -311,6 +325,8 @@ func c03Stats(cases []string) map[string]int {
 			st["analyze.samples"] += len(UnHexListS(f[4]))
 		case "analyze-spec":
 			st["op.analyzeSpec"]++
+		case "tbl":
+			c03TblStats(f, st)
 		case "csv":
 			st["op.csv"]++
 			rows := c03DecRows(f[1])
@@ -374,5 +390,5 @@ var c03Corpus = []string{
 }
 
 func init() {
-	Register("C03", &Prop{Gen: c03Gen, Run: c03Run, Stats: c03Stats, Corpus: append(append(append([]string{}, c03Corpus...), c03ReduceCorpus...), c03AnalyzeCorpus...)})
+	Register("C03", &Prop{Gen: c03Gen, Run: c03Run, Stats: c03Stats, Corpus: append(append(append(append([]string{}, c03Corpus...), c03ReduceCorpus...), c03AnalyzeCorpus...), c03TblCorpus...)})
 }
